@@ -129,64 +129,6 @@ theorem sh_bindArgs0 (code : Code) (b numArgs : Int) (hb : b + numArgs = a) (ha 
         simp only [h2', Bool.false_eq_true, if_false]
         shb
 
-/-! ### carrying a fact about the child's frames over the argument binding -/
-
-/-- a property of the frame stack alone -/
-def FrProp (P : State → Prop) : Prop := ∀ (s : State) (st : Array V) (hp : Array Cell), P s → P { s with stack := st, heap := hp }
-
-theorem RelS.keepP {α β} {A : State → State → Prop} {Q : α → β → State → State → Prop} {P : State → Prop} {m₁ : M α} {m₂ : M β}
-    (hm : RelS A Q m₁ m₂) (hk : Keeps P m₁) :
-    RelS (fun s t => A s t ∧ P s) (fun x y s t => Q x y s t ∧ P s) m₁ m₂ := by
-  intro s t h x s' y t' h1 h2
-  refine ⟨hm s t h.1 x s' y t' h1 h2, ?_⟩
-  have := hk.elim s h.2
-  rw [h1] at this
-  exact this
-
-theorem keeps_of_foot {α} {P : State → Prop} (hP : FrProp P) {m : M α} (hm : Foot m) : Keeps P m := by
-  apply Keeps.intro'
-  intro s h
-  rw [hm.loc s]
-  exact hP s s.stack _ h
-
-theorem keepsF_stackSet {P : State → Prop} (hP : FrProp P) (i : Int) (v : V) : Keeps P (stackSet i v) := by
-  unfold stackSet
-  split
-  · exact Keeps.panic _
-  · exact Keeps.modS (fun s h => hP s _ s.heap h)
-
-theorem keepsF_stackSlice {P : State → Prop} (lo hi : Int) : Keeps P (stackSlice lo hi) := by
-  unfold stackSlice
-  split
-  · exact Keeps.panic _
-  · exact Keeps.bind Keeps.getS (fun _ => Keeps.pure _)
-
-syntax "kf" : tactic
-macro_rules | `(tactic| kf) => `(tactic| repeat (first
-  | exact Keeps.pure _
-  | exact Keeps.panic _
-  | exact keepsF_stackSet (by assumption) _ _
-  | exact keepsF_stackSlice _ _
-  | focus (refine keeps_of_foot (by assumption) ?_; foot; done)
-  | exact Keeps.getS
-  | exact Keeps.get
-  | apply Keeps.bind
-  | apply Keeps.ite
-  | apply Keeps.forIn_range
-  | intro _
-  | split
-  | dsimp only))
-
-theorem keepsF_bindArgs0 {P : State → Prop} (hP : FrProp P) (code : Code) (b numArgs : Int) : Keeps P (bindArgs code b numArgs 0) := by
-  unfold bindArgs
-  have e0 : ((0 : Int) == 0) = true := rfl
-  simp only [e0, if_true]
-  kf
-
-theorem keepsF_fillUndefined {P : State → Prop} (hP : FrProp P) (lo : Int) (n : Nat) : Keeps P (fillUndefined lo n) := by
-  unfold fillUndefined
-  kf
-
 /-! ### entering the callee's frame -/
 
 theorem getElem!_modify2 (fr : Array Frame) (c1 c2 i : Nat) (f1 f2 : Frame → Frame) :
@@ -291,8 +233,6 @@ theorem Sh.enter {s t : State} (h : Sh T0 bp k d H N a s t) (fa : Addr) (free : 
 def CallQ (T0 : State) (bp k d : Nat) (x y : Except OpErr Unit) (s t : State) : Prop :=
   (x = .ok () ∧ y = .ok () ∧ ∃ d', ShB T0 bp k d' s t) ∨
   (∃ e, x = .error e ∧ y = .error e ∧ ∃ H N a, Sh T0 bp k d H N a s t ∧ a ≤ N ∧ H ≤ N)
-
-theorem keeps_getSp' {P : State → Prop} : Keeps P getSp := Keeps.intro' (fun s h => h)
 
 theorem Sh.enter' {s t : State} (h : Sh T0 bp k d H N a s t) (fa : Addr) (free : Option (List Addr)) (b : Int) (nl : Int)
     (hb : 1 ≤ b) (hroom : k + d + 1 < frameSize) (ipv fi fi' : Int) (h1 : s.frameIndex = fi) (h2 : t.frameIndex = fi') :
